@@ -7,3 +7,5 @@ pub mod shape;
 pub mod iofault;
 pub mod c06_model;
 pub mod usage;
+pub mod dynschema;
+pub mod dynschema_selfcheck;
